@@ -44,6 +44,7 @@ THEOREMS = [
     "Measured.C06.same_unit_order",
     "Measured.Obligations.hash_contract_fails", "Measured.Obligations.family_comparisons_coherent",
     "Measured.C12.eq_decides_by_value", "Measured.C12.lt_decides_by_value", "Measured.C12.coherent_of_values",
+    "Measured.C12.eq_decides_by_value_simple", "Measured.C12.lt_decides_by_value_simple",
 ]
 LEAN_TARGETS = ["Props.C12", "Props.C12Direct", "Obligations.C12"]
 QUICK = {"chunks": 4, "ops": 1500}
